@@ -25,7 +25,10 @@ MANIFEST = {
             'passes (cold, then warm caches) alternate sqrt/is_sqr of different fields back to back (two q = 1 mod 4 extension '
             'fields in a row, mixed with q = 3 mod 4, binary and prime fields) under a per-call time limit; a further pass uses '
             'all distinct irreducible moduli of the same order (degree 2 over GF(3), GF(5), GF(7), GF(13), degree 4 over GF(3)) '
-            'back to back, sqrt/sqrt(INV) on squares of every element index.',
+            'back to back, sqrt/sqrt(INV) on squares of every element index. Array stream: PrimeFieldArray/ExtensionFieldArray/'
+            'BinaryFieldArray sqrt, sqrt(INV), np.sqrt, is_sqr on arrays of sizes 0..40 (1-D and reshaped) compared elementwise with '
+            'the scalar methods and with s*s == a, for worker-thread counts W = 0..4 (MPYC_MAXWORKERS), each W in its own '
+            'subprocess under the NumPy interpreter, repeated with fresh values.',
     'note': 'Coq model restricted to prime fields (the p = 1 mod 4 branch of PrimeFieldElement is Cipolla-Lehmer; Tonelli-Shanks '
             'exists only in ExtensionFieldElement). Extension fields (Tonelli-Shanks; q = 1 and 3 mod 4) and binary fields '
             '(Frobenius) are covered by the implementation-level oracle only: is_sqr/sqrt/INV against brute-force squares on all '
@@ -35,7 +38,9 @@ MANIFEST = {
             'the model fuel; (2) the Frobenius/norm identity X^(p+1) = a in GF(p)[X]/(X^2-bX+a) for a non-residue discriminant '
             '(binomial theorem with p | C(p,k)). Both are hypotheses of the conditional theorems and are discharged by '
             'computation only for p < 200 (C21_sqrt_is_sqr_bounded); above that: correspondence/oracle up to 255-bit primes. '
-            'powmod = CPython pow is modelled, not verified.',
+            'powmod = CPython pow is modelled, not verified. The array classes (incl. the worker-thread branch of '
+            'PrimeFieldArray._sqrt) are not modelled in Coq: tested against the scalar methods only; skipped with a note when '
+            '/verif/.venv-np is absent.',
     'technique': 'Coq proof (Fermat via permutation of units, Euler via root bound, ladder loop invariant, exponent arithmetic) + bounded vm_compute over all primes < 200 + exhaustive/random correspondence + brute-force oracle on all field kinds',
 }
 
@@ -72,6 +77,154 @@ def fpow(x, n, one):
         x = x * x
         n >>= 1
     return r
+
+
+ARRAY_SCRIPT = r"""
+import os, sys, json, random
+cfg = json.loads(sys.stdin.read())
+W = cfg['W']
+os.environ['MPYC_MAXWORKERS'] = str(W)
+os.environ['MPYC_NOGMPY'] = os.environ.get('MPYC_NOGMPY', '0')
+from mpyc import finfields
+from mpyc.numpy import np
+assert np, 'NumPy not importable'
+rng = random.Random(cfg['seed'] * 7919 + W)
+fails, ncase, hist = [], 0, {}
+
+def ival(arr):
+    return [int(v) for v in np.asarray(arr.value).reshape(-1).tolist()]
+
+def scal(f):
+    try:
+        r = f()
+    except (ZeroDivisionError, ValueError) as e:
+        return type(e).__name__
+    return bool(r) if isinstance(r, (bool, np.bool_)) else int(r.value)       # unsigned canonical value
+
+def bad(sig, **kw):
+    if len(fails) < 40:
+        kw['W'] = W
+        fails.append([sig, kw])
+
+fields = []
+for p in cfg['primes']:
+    fields.append(('GF(%d)' % p, finfields.GF(p), p, 'prime p=%s' % ('2' if p == 2 else '%d mod 4' % (p % 4))))
+for (pp, dd) in cfg['ext']:
+    fields.append(('GF(%d^%d)' % (pp, dd), finfields.GF(finfields.find_irreducible(pp, dd)), pp ** dd,
+                   'binary' if pp == 2 else 'extension q=%d mod 4' % (pp ** dd % 4)))
+for name, F, q, kind in fields:
+    prime = kind.startswith('prime')
+    threaded = prime and q % 4 == 3            # the worker-thread branch (completion order varies: repeat)
+    sizes = cfg['sizes'] if (q < 2 ** 32 or threaded) else [n for n in cfg['sizes'] if n <= 9 or n in (13, 16, 25, 33, 40)]
+    for n in sizes:
+        for rep in range(cfg['reps'] if threaded else 1):
+            xs = [rng.randrange(1, q) for _ in range(n)]
+            sq = [int((F(x) * F(x)).value) for x in xs]              # nonzero squares
+            sq0 = [v if rng.random() < 0.85 else 0 for v in sq]       # with some zeros
+            anyv = [rng.randrange(q) for _ in range(n)]
+            shape = None
+            if n in (6, 12, 20, 35) and rep % 2:
+                shape = {6: (2, 3), 12: (3, 4), 20: (2, 2, 5), 35: (7, 5)}[n]
+            def arr(vals):
+                a = F.array(np.array(vals, dtype=object)) if vals else F.array([])
+                return a.reshape(shape) if shape else a
+            key = dict(field=name, n=n, shape=shape, rep=rep)
+            ncase += 1
+            hist[kind + ' W=%d' % W] = hist.get(kind + ' W=%d' % W, 0) + 1
+            try:
+                # sqrt on squares (zeros allowed), against the scalar method and against s*s == a
+                a = arr(sq0)
+                s_ = a.sqrt()
+                if type(s_) is not F.array or s_.shape != a.shape:
+                    bad('array-sqrt-type-or-shape ' + name, **key)
+                got = ival(s_)
+                want = [scal(lambda v=v: F(v).sqrt()) for v in sq0]
+                if got != want:
+                    bad('array-sqrt-differs-from-scalar ' + name, values=sq0, got=got, want=want, **key)
+                if ival(s_ * s_) != sq0:
+                    bad('array-sqrt-wrong ' + name, values=sq0, got=got, **key)
+                if n and ival(np.sqrt(a)) != got:
+                    bad('array-np.sqrt-differs ' + name, values=sq0, **key)
+                # inverse roots on nonzero squares
+                a = arr(sq)
+                si = a.sqrt(INV=True)
+                goti = ival(si)
+                wanti = [scal(lambda v=v: F(v).sqrt(INV=True)) for v in sq]
+                if goti != wanti:
+                    bad('array-inv-sqrt-differs-from-scalar ' + name, values=sq, got=goti, want=wanti, **key)
+                if ival(si * si * a) != [1] * n:
+                    bad('array-inv-sqrt-wrong ' + name, values=sq, got=goti, **key)
+                if n:
+                    z = list(sq)
+                    z[rng.randrange(n)] = 0
+                    try:
+                        arr(z).sqrt(INV=True)
+                        bad('array-inv-sqrt-of-zero-accepted ' + name, values=z, **key)
+                    except ZeroDivisionError:
+                        pass
+                # is_sqr on arbitrary elements, against the scalar method
+                a = arr(anyv)
+                g = a.is_sqr()
+                gotq = [bool(b) for b in np.asarray(g).reshape(-1).tolist()]
+                wantq = [bool(F(v).is_sqr()) for v in anyv]
+                if gotq != wantq or np.asarray(g).shape != a.shape:
+                    bad('array-is_sqr-differs-from-scalar ' + name, values=anyv, got=gotq, want=wantq, **key)
+                if prime:
+                    # prime fields: sqrt never raises; elementwise equal to the scalar result also on non-squares
+                    for inv in (False, True):
+                        vals = [v for v in anyv if v] if inv else anyv
+                        if shape and len(vals) != n:
+                            continue
+                        r_ = arr(vals).sqrt(INV=inv)
+                        if ival(r_) != [scal(lambda v=v: F(v).sqrt(INV=inv)) for v in vals]:
+                            bad('array-sqrt-any-differs-from-scalar ' + name, values=vals, inv=inv, got=ival(r_), **key)
+            except Exception as ex:
+                import traceback
+                bad('array-sqrt-raises ' + name, error=repr(ex), tb=traceback.format_exc()[-600:], **key)
+print('RESULT ' + json.dumps({'fails': fails, 'cases': ncase, 'hist': hist}))
+"""
+
+
+def array_stream(ctx):
+    """sqrt / sqrt(INV) / is_sqr of field ARRAYS (NumPy) against the scalar methods, for worker-thread counts
+    W = 0..4 (MPYC_MAXWORKERS), one subprocess per W under the NumPy interpreter."""
+    import json, os, subprocess
+    from concurrent.futures import ThreadPoolExecutor
+    from lib.core import PYNP, impl_env
+    if not os.path.exists(PYNP):
+        ctx.notes.append('array stream skipped: %s not present' % PYNP)
+        return 0
+    cfg = {'seed': ctx.seed, 'sizes': list(range(0, 41)), 'reps': ctx.n(2, 6),
+           'primes': [2, 7, 19, 13, 101, 2 ** 61 - 1, 18446744073709551427, 18446744073709551557],
+           'ext': [(3, 2), (3, 3), (5, 2), (2, 4), (2, 8)]}
+
+    def one(W):
+        c = dict(cfg, W=W)
+        try:
+            p = subprocess.run([PYNP, '-c', ARRAY_SCRIPT], input=json.dumps(c), text=True, env=impl_env(),
+                               stdout=subprocess.PIPE, stderr=subprocess.PIPE, timeout=ctx.n(150, 900))
+        except subprocess.TimeoutExpired:
+            return W, None, 'timeout'
+        line = [l for l in p.stdout.split('\n') if l.startswith('RESULT ')]
+        if p.returncode or not line:
+            return W, None, (p.stderr or p.stdout)[-1500:]
+        return W, json.loads(line[-1][7:]), None
+
+    total = 0
+    with ThreadPoolExecutor(max_workers=5) as ex:
+        results = list(ex.map(one, [0, 1, 2, 3, 4]))
+    for W, res, err in results:
+        if res is None:
+            ctx.violation('array-stream-failed W=%d' % W, {'W': W, 'error': err})
+            continue
+        for sig, detail in res['fails']:
+            ctx.violation('%s W=%d' % (sig, W), detail)
+        total += res['cases']
+        for k, v in res['hist'].items():
+            ctx.hist['array ' + k] = ctx.hist.get('array ' + k, 0) + v
+        ctx.evaluations += res['cases']
+        ctx._distinct.update('array W=%d #%d' % (W, i) for i in range(res['cases']))
+    return total
 
 
 class StepTimeout(Exception):
@@ -385,6 +538,9 @@ def run(ctx):
         if F._sqrt(zero.value) != zero.value:
             bad('sqrt-zero ' + name, field=name)
     ctx.extra['oracle_cases_extension_binary'] = nor
+    nar = array_stream(ctx)
+    ctx.extra['array_sqrt_cases_numpy_subprocess'] = nar
+    ctx.log('array sqrt/is_sqr cases (NumPy subprocesses, W = 0..4): %d' % nar)
     nil += interleaved(ctx, finfields, rng)
     ctx.extra['interleaved_cross_field_checks'] = nil
     ctx.log('interleaved cross-field sqrt/is_sqr checks: %d' % nil)
